@@ -368,7 +368,18 @@ pub fn run_c16(ctx: &Ctx) -> Report {
                 rep.counters.inc("reuse_executions");
                 pattern.push_str(&format!("{}r ", k));
             }
-            cv.push(MCmd::Execute { id: ids[k], params, send_types: rebind }, None);
+            // a backend need not look at every parameter every time: now and then this execution's
+            // callback drops the parser unused, only counts the items, or takes just the first one.
+            // What the statement remembers for later executions must not depend on that.
+            let script = if rng.chance(1, 5) {
+                let m = rng.below(3) as u8;
+                rep.counters.inc("executions_whose_parameters_were_not_all_read");
+                pattern.push_str(["(ignored) ", "(counted) ", "(first) "][m as usize]);
+                Some(Script::Q(QProg { colsets: vec![], ops: vec![QOp::Params(m), QOp::Completed(0, 0)], on_err: OnErr::Drop }))
+            } else {
+                None
+            };
+            cv.push(MCmd::Execute { id: ids[k], params, send_types: rebind }, script);
         }
         let distinct_stmts = pattern.split(' ').filter(|s| !s.is_empty()).map(|s| s.as_bytes()[0]).collect::<std::collections::BTreeSet<_>>().len();
         if distinct_stmts > 1 {
